@@ -82,7 +82,7 @@ void MultiTag::addReference(const DataArray &reference) {
     if(!util::checkEntityInput(reference)) {
         throw UninitializedEntity();
     }
-    backend()->addReference(reference.name());
+    backend()->addReference(reference.id());
 }
 
 
